@@ -61,9 +61,7 @@ func batchRun(c Case) ([]string, []string) {
 				mb, _ := strconv.Atoi(kind[2])
 				kafkaMethod = kind[3]
 				isKafka = true
-				b = kafka.NewBatchFactory(map[string]interface{}{
-					kafka.ConfVarKafkaTopic: "topic", kafka.ConfVarKafkaMaxMessageBytes: mb,
-					kafka.ConfVarKafkaBatchSize: n, kafka.ConfVarKafkaPartitionMethod: kafkaMethod}).NewBatch(unhexs(w[3]))
+				b = kafka.NewBatchFactory(kafkaTransportConfig("topic", mb, n, 262144, kafkaMethod)).NewBatch(unhexs(w[3]))
 			}
 			lines = append(lines, strings.Join(w, " "))
 			outs = append(outs, "ok")
